@@ -11,7 +11,13 @@ JOBS ?= 16
 
 .PHONY: setup coq coq-only coqproject harness harness-all clean check-clean coqchk
 
-setup: check-clean coq harness-all
+# setup keeps going past a failing file or runner: every check rebuilds (and
+# reports on) exactly what it needs, so one broken property must not take the
+# others down with it
+setup: check-clean
+	-$(MAKE) --no-print-directory coq MKFLAGS=-k
+	-$(MAKE) --no-print-directory -k harness-all
+	@echo "setup done"
 
 # _CoqProject is regenerated from the files on disk so that adding a .v file
 # needs no edit of a shared file.
@@ -23,7 +29,7 @@ coqproject:
 # never compile the same file twice at once
 coq: coqproject
 	@mkdir -p build
-	cd coq && flock ../build/coq.lock timeout $(COQ_TIMEOUT) $(MAKE) -f Makefile.coq -j$(JOBS) --no-print-directory
+	cd coq && flock ../build/coq.lock timeout $(COQ_TIMEOUT) $(MAKE) $(MKFLAGS) -f Makefile.coq -j$(JOBS) --no-print-directory
 
 # build selected .vo targets only: make coq-only T="Props/C13.vo Run/C13.vo"
 coq-only: coqproject
@@ -43,7 +49,7 @@ else
 endif
 
 harness-all:
-	@for d in harness/c[0-9]*; do $(MAKE) --no-print-directory harness P=$$(basename $$d) || exit 1; done
+	@rc=0; for d in harness/c[0-9]*; do $(MAKE) --no-print-directory harness P=$$(basename $$d) || rc=1; done; exit $$rc
 
 # no escape hatches anywhere in the development
 check-clean:
